@@ -59,6 +59,8 @@ def build_solver(problem, cfg: dict, stack_max_height: int = 128, decision_domai
     from nucs.solvers.backtrack_solver import BacktrackSolver
 
     kw = {}
+    if decision_domains is None and cfg.get("decision") is not None:
+        decision_domains = list(cfg["decision"])
     if decision_domains is not None:
         kw["decision_domains"] = decision_domains
     # defaults are left to the constructor (its mutable default arguments are part of what is under test)
